@@ -102,6 +102,12 @@ type Task struct {
 
 	// user data for harnesses
 	Tag any
+
+	lastP struct {
+		addr  uintptr
+		clk   uint32
+		write bool
+	}
 }
 
 // PanicInfo describes an escaped panic.
